@@ -30,6 +30,23 @@ pub trait EventListener<E: ResilienceEvent>: Send + Sync {
 /// Type alias for boxed event listeners.
 pub type BoxedEventListener<E> = Arc<dyn EventListener<E>>;
 
+/// Drops a caught panic payload without letting anything escape.
+///
+/// Dropping a payload runs user code (`std::panic::panic_any` with a value whose
+/// `Drop` panics), and the payload of *that* panic may panic on drop again, and so
+/// on. Each drop runs under `catch_unwind`; a payload that keeps producing panics
+/// is leaked in the end rather than dropped bare.
+pub fn drop_panic_payload(payload: Box<dyn std::any::Any + Send>) {
+    let mut payload = payload;
+    for _ in 0..16 {
+        match std::panic::catch_unwind(std::panic::AssertUnwindSafe(move || drop(payload))) {
+            Ok(()) => return,
+            Err(next) => payload = next,
+        }
+    }
+    std::mem::forget(payload);
+}
+
 /// A collection of event listeners.
 #[derive(Clone)]
 pub struct EventListeners<E: ResilienceEvent> {
@@ -77,9 +94,7 @@ impl<E: ResilienceEvent> EventListeners<E> {
 
                 // Dropping the payload runs user code too (`panic_any` with a value whose
                 // `Drop` panics): contain that as well, or it escapes to the caller.
-                let _ = std::panic::catch_unwind(std::panic::AssertUnwindSafe(move || {
-                    drop(_panic_payload)
-                }));
+                drop_panic_payload(_panic_payload);
             }
         }
     }
